@@ -489,6 +489,17 @@ class VConstDict(V):
       raise PathEnd('key error')
     return self.d[idx.s]
 
+  def flatten(self):
+    out = []
+    for k in sorted(self.d):
+      out.extend(self.d[k].flatten())
+    return out
+
+  def store(self, key, value):
+    d = dict(self.d)
+    d[key] = value
+    return VConstDict(d)
+
 
 class VEmptyDict(V):
   """The literal {} before its shape is known."""
@@ -671,6 +682,8 @@ class Exec:
   def module_attr(self, modname, attr, node):
     if modname.startswith('repo:'):
       short = modname[5:]
+      if 'repo:%s.%s' % (short, attr) in self.world.lib:
+        return VCallable('lib', 'repo:%s.%s' % (short, attr))
       src = self.world.source(short)
       if attr in src.classes:
         return VCallable('class', (short, attr))
@@ -845,6 +858,8 @@ class Exec:
       if isinstance(v, VOpaque):
         return self.lib_call('numpy.negative', [v], {}, node)
     if isinstance(node.op, ast.Invert):
+      if hasattr(v, 'py_invert'):
+        return v.py_invert(self, node)
       if isinstance(v, VOpaque):
         return self.lib_call('pandas.invert', [v], {}, node)
       if isinstance(v, VBool):
@@ -1153,7 +1168,9 @@ class Exec:
     kwargs = {}
     for k in node.keywords:
       if k.arg is None:
-        self.unsupported(node, '**kwargs')
+        # f(**d): the mapping is passed on as one opaque value
+        kwargs['**'] = self.eval_arg(k.value, env)
+        continue
       kwargs[k.arg] = self.eval_arg(k.value, env)
     c = self.ctx.unit.contract
     if c is not None and c.at_calls and env.qualname == c.fn_qualname:
